@@ -358,7 +358,7 @@ CHECKS['C20'] = dict(
     parts=[part('TestC20', 250, 3000, qshards=2), dict(test='FuzzC20', fuzz='FuzzC20', replay_test='TestC20FuzzReplay', quick=dict(seconds=0), thorough=dict(seconds=180))],
     rule=('a case is a sequence of 1-10 wire requests; non-trivial iff a request with at least one field outside the well-formed envelope got past the handler\'s own validation '
           '(answer other than the early-exit DENIED or an error); distinct = sha256 of the case JSON'),
-    essential=['hostile-requests-that-reached-service-code'] + ['method:' + m for m in ['Signer/Sign', 'Signer/Multisign', 'Signer/SignBeaconAttestation', 'Signer/SignBeaconAttestations',
+    essential=['hostile-requests-that-reached-service-code', 'requests-sent-in-parallel'] + ['method:' + m for m in ['Signer/Sign', 'Signer/Multisign', 'Signer/SignBeaconAttestation', 'Signer/SignBeaconAttestations',
                'Signer/SignBeaconProposal', 'Lister/ListAccounts', 'AccountManager/Unlock', 'AccountManager/Lock', 'AccountManager/Generate', 'WalletManager/Unlock', 'WalletManager/Lock',
                'DKG/Prepare', 'DKG/Execute', 'DKG/Commit', 'DKG/Abort', 'DKG/Contribute']],
     assumptions=['requests reach the handlers as the protobuf decoder would deliver them (wire round trip)', 'authenticated identity injected through the interceptor context key'],
